@@ -122,6 +122,9 @@ func Schema(t *T, o SchemaOpts) *model.Schema {
 		var out []*model.ArgDef
 		for j, n := 0, intn(t, 0, 2, "nArgs"); j < n; j++ {
 			a := &model.ArgDef{Name: argNames[j], Type: wrapIn(t, pick(t, inputPool, "argType"), o.MaxWrap), Desc: desc(t, o, "arg")}
+			if j == 0 && chance(t, 12, "argNamedIf") {
+				a.Name = "if" // the name of @skip / @include's argument
+			}
 			if (!a.Type.NonNull() || o.NonNullDefaults) && chance(t, 35, "argDefault") {
 				a.Default = RuntimeValue(t, s, a.Type, 2, true)
 			}
